@@ -516,7 +516,11 @@ class Interp:
                     tt = int_type(e.get('t'))
                     ft = int_type(fn.N(c[0]).get('t'))
                     if tt and ft and (tt[0] < ft[0] or (tt[1] and not ft[1] and tt[0] <= ft[0])):
-                        s = Op()                 # truncation / reinterpretation as signed: order is not preserved, the value is opaque from here on
+                        if isinstance(s, Lz) and s.v is not None and getattr(self, 'lz_arith_ok', False):
+                            v_ = s.v & ((1 << tt[0]) - 1)          # a chosen representative converts like the number it is
+                            s = v_ - (1 << tt[0]) if (tt[1] and v_ >= (1 << (tt[0] - 1))) else v_
+                        else:
+                            s = Op()             # truncation / reinterpretation as signed: order is not preserved, the value is opaque from here on
                 if ck == 'IntegralCast' and isinstance(s, int) and not isinstance(s, bool):
                     from .cfg import int_type
                     tt = int_type(e.get('t'))
